@@ -113,7 +113,7 @@ class SendPaths:
                 p = fn.get("path") or ""
                 if c is not None and c == self.record_def:
                     self.records.append((Site(b, blk.idx), [f.ty(t) for t in fn["targs"]], [tr.norm(a) for a in tr.call_args(blk.idx)], blk.term["args"]))
-                elif p == "tokio::time::timeout::timeout":
+                elif p in ("tokio::time::timeout::timeout", "tokio::time::timeout::timeout_at"):
                     self.timeouts.append(Site(b, blk.idx))
                 elif p == "tokio::sync::oneshot::channel":
                     self.oneshots.append(Site(b, blk.idx))
@@ -219,7 +219,7 @@ class SendPaths:
                 m = is_tokio_mpsc_sender_method(self.f, fn)
                 if m and m == ("send", "mailbox"):
                     return ("mailbox_send", fut[1])
-                if (fn.get("path") or "") == "tokio::time::timeout::timeout":
+                if (fn.get("path") or "") in ("tokio::time::timeout::timeout", "tokio::time::timeout::timeout_at"):
                     return ("timeout", fut[1])
                 if fn.get("def") in ("actor_ref::ActorRef::<T>::ask", "actor_ref::ActorRef::<T>::tell"):
                     return ("base_op", fut[1], fn.get("name"))
